@@ -84,6 +84,25 @@ theorem C12_header_exact (a : HdrArgs) (hid : ∀ c ∈ a.id, xmlChar c = true)
     by_cases h4 : a.lang = [] <;>
     simp [h1, h2, h3, h4]
 
+/-- **What does not round-trip.**  Raw text between the quotes of an attribute value (any
+XML characters except the quote, `&` and `<`) is read with its line ends normalised —
+`\r\n` and `\r` become `\n` — and with nothing else changed; so raw text comes back
+unchanged exactly if it contains no carriage return.  (Tabs and line feeds are *not* turned
+into spaces by `encoding/xml`.)  The printer never relies on this: `xml.EscapeText` writes
+`\t`, `\n`, `\r` as character references, which `C12_header_roundtrip` shows come back as
+themselves. -/
+theorem C12_attr_value_line_ends (q : Char) (v acc rest : Str)
+    (hv : ∀ c ∈ v, c ≠ q ∧ c ≠ '&' ∧ c ≠ '<' ∧ xmlChar c = true) :
+    readValue q (v ++ q :: rest) ⟨acc, none, false⟩ = some (acc ++ normCR false v, rest) ∧
+    (normCR false v = v ↔ '\r' ∉ v) := by
+  refine ⟨readValue_raw q v hv false acc rest, ?_, normCR_id v⟩
+  intro h hr
+  have := normCR_no_cr v false
+  rw [h] at this
+  exact this hr
+
+example : normCR false "a\r\nb\rc\n\td".toList = "a\nb\nc\n\td".toList := by decide
+
 -- the model's printer produces the bytes of the Go format strings
 set_option maxRecDepth 8000 in
 example : printHeader ⟨false, false, [], "a".toList, "b'c".toList, []⟩ =
@@ -413,6 +432,129 @@ theorem C12_restart_addresses (recv ws s2s : Bool) (pj : String → Option Strin
         · intro h0; have := key1 h0; rw [k1 (by simpa [this] using h0), this]
         · intro h0; have := key2 h0; rw [k2 (by simpa [this] using h0), this]
 
+/-- **A refused header leaves the addresses alone**: whatever the reason for the refusal
+(`Expect`'s checks or the address comparison), the session goes on reporting the addresses
+that were established before it. -/
+theorem C12_refused_header_keeps_addresses (recv ws s2s : Bool) (pj : String → Option String)
+    (a : Addrs) (h : List HTok) (hs : List (List HTok)) (e : HErr)
+    (hr : negStep recv ws s2s pj a h = .error e) : negEnd recv ws s2s pj a (h :: hs) = a := by
+  simp [negEnd, hr]
+
+/-- the addresses reported at the end are the initial ones or those of a header that was
+accepted -/
+theorem C12_final_addresses (recv ws s2s : Bool) (pj : String → Option String)
+    (hs : List (List HTok)) : ∀ (a : Addrs),
+    negEnd recv ws s2s pj a hs = a ∨
+    ∃ i o, Except.ok (i, o) ∈ negRun recv ws s2s pj a hs ∧ negEnd recv ws s2s pj a hs = ⟨i.to, i.src⟩ := by
+  induction hs with
+  | nil => intro a; left; rfl
+  | cons h hs ih =>
+    intro a
+    unfold negEnd negRun
+    cases hstep : negStep recv ws s2s pj a h with
+    | error e => left; rfl
+    | ok r =>
+      obtain ⟨a', j, o'⟩ := r
+      simp only []
+      have ha' : a' = ⟨j.to, j.src⟩ := by
+        cases recv
+        · exact ((C12_restart_initiating ws s2s pj a a' h j o').mp hstep).2.2.2.1
+        · exact ((C12_restart_receiving ws s2s pj a a' h j o').mp hstep).2.2.2.1
+      right
+      rcases ih a' with e | ⟨i, o, hm, e⟩
+      · exact ⟨j, o', by simp, by rw [e, ha']⟩
+      · exact ⟨i, o, by simp [hm], e⟩
+
+/-- **Hostile environment.**  On a connection that stops accepting writes after any number
+of them, with a context that is cancelled at any point, with or without TeeIn/TeeOut: every
+header that is reported accepted is one the undisturbed negotiation accepts, with the same
+recorded information (so `C12_restart_addresses` applies to it) … -/
+theorem C12_env_verdicts (recv ws s2s : Bool) (pj : String → Option String) (tee : Bool)
+    (cancel : Option Nat) (hs : List (List HTok)) : ∀ (k : Nat) (b : Option Nat) (a : Addrs),
+    ∀ v ∈ (negRunE recv ws s2s pj tee cancel k b a hs).1, ∀ x, v = .ok x →
+      v ∈ negRun recv ws s2s pj a hs := by
+  induction hs with
+  | nil => intro k b a v hv; simp [negRunE] at hv
+  | cons h hs ih =>
+    intro k b a v hv x hx
+    subst hx
+    unfold negRunE at hv
+    have hrun : ∀ a' i o, negStep recv ws s2s pj a h = .ok (a', i, o) →
+        negRun recv ws s2s pj a (h :: hs) = .ok (i, o) :: negRun recv ws s2s pj a' hs := by
+      intro a' i o hst; simp [negRun, hst]
+    cases recv
+    · simp only [Bool.false_eq_true, if_false] at hv
+      split at hv
+      · simp at hv
+      · split at hv
+        · simp at hv
+        · split at hv
+          · simp at hv
+          · split at hv
+            · simp at hv
+            · rename_i a' i o hstep
+              rw [hrun a' i o hstep]
+              simp only [List.mem_cons] at hv ⊢
+              rcases hv with hv | hv
+              · exact Or.inl hv
+              · exact Or.inr (ih _ _ _ _ hv x rfl)
+    · simp only [if_true] at hv
+      split at hv
+      · simp at hv
+      · split at hv
+        · simp at hv
+        · rename_i a' i o hstep
+          rw [hrun a' i o hstep]
+          split at hv
+          · simp at hv
+          · split at hv
+            · simp at hv
+            · simp only [List.mem_cons] at hv ⊢
+              rcases hv with hv | hv
+              · exact Or.inl hv
+              · exact Or.inr (ih _ _ _ _ hv x rfl)
+
+/-- … and the addresses reported at the end are those the undisturbed negotiation reports
+after some prefix of the headers: a failed write or a cancellation never installs addresses
+that no accepted header carried. -/
+theorem C12_env_final (recv ws s2s : Bool) (pj : String → Option String) (tee : Bool)
+    (cancel : Option Nat) (hs : List (List HTok)) : ∀ (k : Nat) (b : Option Nat) (a : Addrs),
+    ∃ n, (negRunE recv ws s2s pj tee cancel k b a hs).2 = negEnd recv ws s2s pj a (hs.take n) := by
+  induction hs with
+  | nil => intro k b a; exact ⟨0, rfl⟩
+  | cons h hs ih =>
+    intro k b a
+    unfold negRunE
+    cases recv
+    · simp only [Bool.false_eq_true, if_false]
+      split
+      · exact ⟨0, rfl⟩
+      · split
+        · exact ⟨0, rfl⟩
+        · split
+          · exact ⟨0, rfl⟩
+          · split
+            · rename_i e hstep; exact ⟨1, by simp [negEnd, hstep]⟩
+            · rename_i a' i o hstep
+              obtain ⟨n, hn⟩ := ih (k + 1) _ a'
+              refine ⟨n + 1, ?_⟩
+              simp only [List.take_succ_cons, negEnd, hstep]
+              exact hn
+    · simp only [if_true]
+      split
+      · exact ⟨0, rfl⟩
+      · split
+        · rename_i e hstep; exact ⟨1, by simp [negEnd, hstep]⟩
+        · rename_i a' i o hstep
+          split
+          · exact ⟨1, by simp [negEnd, hstep]⟩
+          · split
+            · exact ⟨1, by simp [negEnd, hstep]⟩
+            · obtain ⟨n, hn⟩ := ih (k + 1) _ a'
+              refine ⟨n + 1, ?_⟩
+              simp only [List.take_succ_cons, negEnd, hstep]
+              exact hn
+
 end restart
 
 /-! ## resource binding -/
@@ -457,22 +599,39 @@ theorem C12_bind_adopt (addr : String) (r : Reply) :
       cases idOK <;> by_cases h1 : type = "result" <;> by_cases h2 : type = "error" <;>
         cases errCond <;> simp_all [client]
 
-/-- **The reply.**  The receiver answers with the request's id; a result carries the address
-the callback chose, or a fresh random resource on the bare remote address when there is no
-callback, and completes the session; a stanza error from the callback is sent as an error
-reply with its condition and the session does not become ready; if the callback fails
-nothing is sent.  The callback sees the remote address and the requested resource. -/
-theorem C12_bind_reply (remote reqId : String) (reqRes : Option String) (cb : Callback) :
-    (∀ t id a c, (server remote reqId reqRes cb).reply = some (t, id, a, c) → id = reqId) ∧
-    (cb = .default → (server remote reqId reqRes cb).reply = some ("result", reqId, some .random, none) ∧
-      (server remote reqId reqRes cb).ready = true) ∧
-    (∀ j, cb = .address j → (server remote reqId reqRes cb).reply = some ("result", reqId, some (.jid j), none) ∧
-      (server remote reqId reqRes cb).ready = true ∧ (server remote reqId reqRes cb).err = none) ∧
-    (∀ c, cb = .stanzaError c → (server remote reqId reqRes cb).reply = some ("error", reqId, none, some c) ∧
-      (server remote reqId reqRes cb).ready = false ∧ (server remote reqId reqRes cb).err ≠ none) ∧
-    (cb = .failure → (server remote reqId reqRes cb).reply = none ∧ (server remote reqId reqRes cb).ready = false) ∧
-    (cb ≠ .default → (server remote reqId reqRes cb).cbArgs = some (remote, reqRes.getD "")) := by
-  cases cb <;> simp [server] <;> (intro _ _ _ _ _ h _ _; exact h.symm)
+/-- **The reply.**  For a request whose `to`/`from` parse (or are absent) the receiver
+answers with the request's id, addressed back (`to` = the request's `from`, `from` = the
+request's `to`); a result carries the address the callback chose, or a fresh random resource
+on the bare remote address when there is no callback, and completes the session; a stanza
+error from the callback is sent as an error reply with its condition and the session does not
+become ready; if the callback fails nothing is sent.  The callback sees the remote address and
+the requested resource.  A request whose `to` or `from` is not an address is not answered. -/
+theorem C12_bind_reply (remote reqId : String) (reqRes : Option String) (reqTo reqFrom : JidField)
+    (cb : Callback) (hto : reqTo ≠ .invalid) (hfrom : reqFrom ≠ .invalid) :
+    (∀ q, (server remote reqId reqRes reqTo reqFrom cb).reply = some q →
+      q.id = reqId ∧ q.to = addrOf reqFrom ∧ q.src = addrOf reqTo) ∧
+    (cb = .default → ∃ q, (server remote reqId reqRes reqTo reqFrom cb).reply = some q ∧
+      q.type = "result" ∧ q.assigned = some .random ∧
+      (server remote reqId reqRes reqTo reqFrom cb).ready = true) ∧
+    (∀ j, cb = .address j → ∃ q, (server remote reqId reqRes reqTo reqFrom cb).reply = some q ∧
+      q.type = "result" ∧ q.assigned = some (.jid j) ∧ q.cond = none ∧
+      (server remote reqId reqRes reqTo reqFrom cb).ready = true ∧
+      (server remote reqId reqRes reqTo reqFrom cb).err = none) ∧
+    (∀ c, cb = .stanzaError c → ∃ q, (server remote reqId reqRes reqTo reqFrom cb).reply = some q ∧
+      q.type = "error" ∧ q.cond = some c ∧ q.assigned = none ∧
+      (server remote reqId reqRes reqTo reqFrom cb).ready = false ∧
+      (server remote reqId reqRes reqTo reqFrom cb).err ≠ none) ∧
+    (cb = .failure → (server remote reqId reqRes reqTo reqFrom cb).reply = none ∧
+      (server remote reqId reqRes reqTo reqFrom cb).ready = false) ∧
+    (cb ≠ .default → (server remote reqId reqRes reqTo reqFrom cb).cbArgs = some (remote, reqRes.getD "")) := by
+  cases cb <;> simp [server, hto, hfrom] <;> (intro q hq; subst hq; simp)
+
+theorem C12_bind_bad_request_address (remote reqId : String) (reqRes : Option String)
+    (reqTo reqFrom : JidField) (cb : Callback) (h : reqTo = .invalid ∨ reqFrom = .invalid) :
+    (server remote reqId reqRes reqTo reqFrom cb).reply = none ∧
+    (server remote reqId reqRes reqTo reqFrom cb).ready = false ∧
+    (server remote reqId reqRes reqTo reqFrom cb).cbArgs = none := by
+  simp [server, h]
 
 end bind
 
